@@ -11,7 +11,7 @@ sys.path.insert(0, os.path.join(VERIF, 'gen'))
 import c06gen as G
 
 INF = G.INF
-N_THEOREMS = 30
+N_THEOREMS = 32
 NUMTOK = re.compile(r'-?\d+(?:p-?\d+)?')
 
 
@@ -407,6 +407,7 @@ def run(ck):
            (len(cases), n_lines, stats['evaluations'], stats['bound_checks'], sum(len(v) for v in corr_bad.values()), n_unsupported))
     ck.log('op kinds: %s' % json.dumps(kinds, sort_keys=True))
     ck.log('outcomes: %s' % json.dumps(stats['outcome'], sort_keys=True))
+    e2e_stage(ck, quick)
     if not quick:
         try:
             e2e_abs(ck)
@@ -451,6 +452,209 @@ def e2e_abs(ck):
                                      'constraint %s violates it (abs(x1) was replaced by x0)' % json.dumps(ev['data']),
                                      {'nl_stub': stub, 'accept': 'AbsConstraint', 'log': res['log']}, found_input=True)
     ck.cov['e2e_abs_constraints_checked'] = n
+
+
+# ------------------------------------------------------------------ stage 4: end to end through the real driver
+E2E_CORPUS = [   # (vars [(lb, ub, int)], logical constraints)
+    ([(0, 5, True), (0, 5, True)], [('not', ('and', ('ge', ('v', 0), ('n', F(3))), ('ge', ('v', 1), ('n', F(3)))))]),
+    ([(0, 5, True), (0, 5, True)], [('not', ('or', ('eq', ('v', 0), ('n', F(2))),
+                                                 ('and', ('le', ('v', 0), ('n', F(1))), ('ge', ('v', 1), ('n', F(4))))))]),
+    ([(0, 5, True), (0, 5, True)], [('implies', ('forall', [('ge', ('v', 0), ('n', F(2))), ('le', ('v', 1), ('n', F(3)))]),
+                                     ('F',), ('T',))]),
+    ([(0, 1, True), (0, 4, True), (0, 4, True)], [('iff', ('ge', ('v', 0), ('n', F(1))),
+                                                    ('not', ('and', ('ge', ('v', 1), ('n', F(2))), ('le', ('v', 2), ('n', F(2))))))]),
+]
+
+
+def e2e_eval(D, orc, pt):
+    """values of all variables that are determined by the point of the original variables through the delivered
+    functional constraints (res == f(args)), computed exactly; returns dict var -> Fraction and the list of definitions"""
+    x = dict(pt)
+    defs = [c for c in D.cons if c['k'] in ('func', 'cond', 'fexpr') and c['res'] >= 0]
+    defined = {c['res'] for c in defs}
+    for v in range(D.n):
+        if v not in x and v not in defined and D.lb[v] == D.ub[v] and D.lb[v] not in (INF, -INF):
+            x[v] = D.lb[v]
+    pending = list(defs)
+    progress = True
+    while pending and progress:
+        progress = False
+        rest = []
+        for c in pending:
+            if c['k'] == 'func':
+                deps = c['args']
+            elif c['k'] == 'cond':
+                deps = [j for _, j in c['con']['lin']] + [j for q in c['con']['quad'] for j in q[1:]]
+            else:
+                deps = [j for _, j in c['lin']] + [j for q in c['quad'] for j in q[1:]]
+            if not all(j in x for j in deps):
+                rest.append(c)
+                continue
+            progress = True
+            try:
+                if c['k'] == 'func':
+                    val = orc.func_value(c, x)
+                elif c['k'] == 'cond':
+                    val = F(int(orc._alg_holds(c['con'], x, c['cmp'])))
+                else:
+                    val = c['const'] + orc._body(c, x)
+            except Exception:
+                val = None
+            if val is not None and c['res'] not in x:
+                x[c['res']] = val
+                c['_val_known'] = True
+        pending = rest
+    return x, defs
+
+
+def e2e_fits(D, orc, pt, n, override):
+    q = dict(pt); q.update(override)
+    x, defs = e2e_eval(D, orc, q)
+    for c in defs:
+        rv = c['res']
+        if rv < n or rv not in x or rv >= D.n:
+            continue
+        if not (D.lb[rv] <= x[rv] <= D.ub[rv]) or (D.int[rv] and x[rv].denominator != 1):
+            return False
+    return True
+
+
+def e2e_only_unused_zero(D, orc, pt, n):
+    """input class of finding C06-unused-var-fixed-zero: the delivered model has auxiliary variables with bounds [0,0] that are
+    the result of NO delivered constraint but are arguments of delivered ones (FixUnusedDefinedVars fixed them to 0 after
+    their defining constraint was marked unused), and giving those variables other 0/1 values makes every delivered
+    functional constraint fit the bounds of its result variable at this point."""
+    defs = [c for c in D.cons if c['k'] in ('func', 'cond', 'fexpr') and c['res'] >= 0]
+    defined = {c['res'] for c in defs}
+    used = set()
+    for c in defs:
+        if c['k'] == 'func':
+            used.update(c['args'])
+    Z = [v for v in sorted(used) if v >= n and v not in defined and D.lb[v] == 0 and D.ub[v] == 0]
+    if not Z or len(Z) > 6:
+        return False
+    import itertools
+    for bits in itertools.product([F(0), F(1)], repeat=len(Z)):
+        if any(bits) and e2e_fits(D, orc, pt, n, dict(zip(Z, bits))):
+            return True
+    return False
+
+
+def e2e_stage(ck, quick):
+    """property statement evaluated on the real converter including all later narrowing: every value a delivered functional
+    constraint's expression takes at an NL-feasible point must lie within the bounds / type the ModelAPI received for its
+    result variable."""
+    import recsolver as R
+    import nlgen as N
+    import c01gen
+    import c01_oracle as orc
+    exe = R.build(ck)
+    wdir = os.path.join(BUILD, 'c06_e2e')
+    os.makedirs(wdir, exist_ok=True)
+    r = G.Rng(ck.seed * 48271 + 11)
+    models = []
+    for vs, lcs in E2E_CORPUS:
+        m = N.Model(); grids = []
+        for lo, hi, ii in vs:
+            m.var(lo, hi, ii); grids.append([F(v) for v in range(lo, hi + 1)])
+        for l in lcs:
+            m.lcon(l)
+        models.append(('corpus', m, grids))
+    n_own = 900 if quick else 6000
+    n_c01 = 300 if quick else 2000
+    for i in range(n_own):
+        m, grids = G.gen_e2e_model(r)
+        models.append(('own', m, grids))
+    for i in range(n_c01):
+        case = c01gen.gen_case(ck.seed * 7 + 3, i, 'quick')
+        m, grids = c01gen.model_from_json(case['model'])
+        if getattr(m, 'sos', None):
+            continue
+        models.append(('c01gen', m, grids))
+    st = {'models': 0, 'delivered': 0, 'refused': 0, 'points': 0, 'feasible_points': 0, 'result_var_checks': 0,
+          'types': {}, 'refusal_kinds': {}, 'unsupported_types': {}}
+    seen = set()
+    for mi, (src, m, grids) in enumerate(models):
+        st['models'] += 1
+        stub = os.path.join(wdir, 'm%d' % (mi % 8))
+        m.write(stub, names=False)
+        res = R.run(exe, stub, accept='ALL', timeout=60)
+        D = orc.Delivered(res['log'])
+        if not (D.begun and D.ended):
+            st['refused'] += 1
+            txt = (res['err'] or '') + (res['out'] or '') + (res['sol'] or '')[:600]
+            kind = ('infeasible' if 'nfeasib' in txt else 'empty-cmp' if 'empty_cmp' in txt else 'unsupported' if 'nsupported' in txt
+                    else 'timeout' if res['rc'] == 'timeout' else 'other')
+            st['refusal_kinds'][kind] = st['refusal_kinds'].get(kind, 0) + 1
+            if kind == 'infeasible' and src != 'c01gen':
+                # the converter declared the model infeasible: wrong if an NL-feasible grid point exists
+                for p in c01gen.all_points(grids)[:600]:
+                    try:
+                        ok = m.feasible(p)
+                    except Exception:
+                        ok = False
+                    if ok:
+                        sig = 'e2e:declared-infeasible-but-feasible-point'
+                        if sig not in seen:
+                            seen.add(sig)
+                            ck.add_violation(sig, 'the converter declared the model infeasible (%s) but the NL model is feasible at %s' %
+                                             (txt.strip()[-160:], [str(v) for v in p]),
+                                             {'model': c01gen.model_to_json(m, grids), 'point_model_order': [str(v) for v in p]}, found_input=True)
+                        break
+            continue
+        st['delivered'] += 1
+        for u in D.unsupported:
+            st['unsupported_types'][u] = st['unsupported_types'].get(u, 0) + 1
+        n = len(m.vars)
+        pts = c01gen.all_points(grids)
+        if len(pts) > 400:
+            pts = [pts[r.below(len(pts))] for _ in range(400)]
+        for c in D.cons:
+            if c['k'] in ('func', 'cond', 'fexpr'):
+                st['types'][c['type']] = st['types'].get(c['type'], 0) + 1
+        for p in pts:
+            st['points'] += 1
+            try:
+                if not m.feasible(p):
+                    continue
+            except Exception:
+                continue
+            st['feasible_points'] += 1
+            x, defs = e2e_eval(D, orc, {i: F(p[m.perm[i]]) for i in range(n)})
+            for c in defs:
+                rv = c['res']
+                if rv < n or rv not in x or rv >= D.n:
+                    continue
+                val = x[rv]
+                st['result_var_checks'] += 1
+                lo, hi = D.lb[rv], D.ub[rv]
+                tol = 0 if (D.inexact == 0 and (val.denominator & (val.denominator - 1)) == 0) else F(1, 10 ** 9) * (1 + abs(val))
+                bad = None
+                if val < lo - tol:
+                    bad = 'lb'
+                elif val > hi + tol:
+                    bad = 'ub'
+                elif D.int[rv] and val.denominator != 1:
+                    bad = 'int'
+                if bad:
+                    sig = 'e2e:%s:%s-cuts-value' % (c['type'], bad)
+                    if e2e_only_unused_zero(D, orc, {i: F(p[m.perm[i]]) for i in range(n)}, n):
+                        sig = 'e2e:unused-result-var-fixed-to-0-but-referenced'
+                    if sig in seen:
+                        continue
+                    seen.add(sig)
+                    ck.add_violation(sig,
+                                     'end to end (NL -> flattener -> converter -> ModelAPI, all functional constraints accepted): at the NL-feasible '
+                                     'point %s the delivered %s defines x%d = %s, but the ModelAPI received bounds [%s, %s]%s for x%d' %
+                                     ([str(v) for v in p], c['type'], rv, val, lo, hi, ' integer' if D.int[rv] else '', rv),
+                                     {'model': c01gen.model_to_json(m, grids), 'source': src, 'point_model_order': [str(v) for v in p],
+                                      'delivered_constraint': {k: str(v) for k, v in c.items()},
+                                      'how': 'write the model with gen/nlgen.py, run harness/recsolver with RECSOLVER_ACCEPT=ALL, '
+                                             'evaluate the delivered functional constraints at the point', 'nl_stub': stub},
+                                     found_input=True)
+    ck.cov['e2e'] = st
+    ck.log('e2e: models=%d delivered=%d feasible_points=%d result_var_checks=%d types=%s' %
+           (st['models'], st['delivered'], st['feasible_points'], st['result_var_checks'], json.dumps(st['types'], sort_keys=True)))
 
 
 def replay(ck, path):
